@@ -21,6 +21,9 @@ func buildDoc(d *Doc) *bluge.Document {
 	for _, v := range d.T {
 		bd.AddField(bluge.NewTextField("t", v).StoreValue().SearchTermPositions())
 	}
+	for _, v := range d.U {
+		bd.AddField(bluge.NewTextField("u", v))
+	}
 	for _, v := range d.K {
 		bd.AddField(bluge.NewKeywordField("k", v).StoreValue().Sortable().Aggregatable())
 	}
